@@ -310,8 +310,8 @@ class BatchFamily:
         return (S.new(POINTS, X, tx), S.new(POINTS, Y, S.new(RN, "u", 2)))
 
 
-@scenario("C04", [COND + ".forward", COND + "._compute_dist"], configs=["2", "inf"], name="data_condition_on_the_full_data_set_aggregates_every_batch_once")
-@scenario("C16", [COND + ".forward", COND + "._compute_dist"], configs=["2", "inf"])
+@scenario("C04", [COND + ".forward", COND + "._compute_dist"], configs=["2", "inf", "2/root=2"], name="data_condition_on_the_full_data_set_aggregates_every_batch_once")
+@scenario("C16", [COND + ".forward", COND + "._compute_dist"], configs=["2", "inf", "2/root=2"])
 def data_condition_on_the_full_data_set_aggregates_every_batch_once(S):
     """DataCondition(use_full_dataset=True).forward over an ARBITRARY loader with a symbolic number M of batches of
     symbolic sizes (inductive loop contract).  Spec functions: Acc(0) = 0 and
@@ -331,8 +331,9 @@ def data_condition_on_the_full_data_set_aggregates_every_batch_once(S):
     fam = BatchFamily(S, M)
     tx = I.binop(ast.Mult(), S.new(RN, "x", 2), S.new(RN, "t", 1))
     model = AbstractModel(S, "net", tx, S.new(RN, "u", 2))
-    norm = 2 if S.cfg == "2" else "inf"
-    cond = S.new(COND, model.obj, fam, norm, use_full_dataset=True)
+    norm = "inf" if S.cfg == "inf" else 2
+    rooted = S.cfg.endswith("root=2")
+    cond = S.new(COND, model.obj, fam, norm, use_full_dataset=True, root=2.0) if rooted else S.new(COND, model.obj, fam, norm, use_full_dataset=True)
     Acc = z3.Function("Acc", z3.IntSort(), z3.RealSort())
     S.assume(Acc(0) == 0)
     probe = S.probe_returns(COND + "._compute_dist")
@@ -375,9 +376,16 @@ def data_condition_on_the_full_data_set_aggregates_every_batch_once(S):
         S.ensure(f"batch-loop/{tag}:accumulator-follows-its-recursive-definition", lv == Acc(zint(i)), [definition] + S.minmax_cross_instances(), kind="inv")
 
     S.loop(COND + ".forward", 0, LoopSpec(make, check, modifies=["loss"], label="batch-loop"))
+    if rooted:
+        # (the mean of the per-batch means of |.|^2 is non-negative: stated, not derived from the sum model)
+        S.assume(Acc(Mz) >= 0)
     loss = S.method(cond, "forward")
     lv = zreal(loss.val.at([() for _ in loss.val.shape]))
-    S.ensure("loss-is-the-accumulator-after-all-M-batches", lv == Acc(Mz))
+    if rooted:
+        # the documented root is taken ONCE, of the aggregated value (not per batch)
+        S.ensure("loss-is-the-root-of-the-accumulator-after-all-M-batches", z3.And(lv >= 0, lv * lv == Acc(Mz)))
+    else:
+        S.ensure("loss-is-the-accumulator-after-all-M-batches", lv == Acc(Mz))
 
 
 # ----------------------------------------------------------------------------- DeepONetDataCondition: pairing inside the distance
